@@ -72,6 +72,9 @@ def run_case(case, want_trace=False):
                 if f["type"] == R.CON:
                     if re == "piggy":
                         peer.send(src, R.msg(R.ACK, R.CONTENT, f["mid"], f["token"], payload=b"ok"), d)
+                    elif re == "piggy_wrongtoken":
+                        # acknowledges the message all the same; the response in it belongs to nobody
+                        peer.send(src, R.msg(R.ACK, R.CONTENT, f["mid"], bytes(f["token"]) + b"\x00", payload=b"ok"), d)
                     elif re == "ack_sep":
                         peer.send(src, R.msg(R.ACK, 0, f["mid"]), d)
                         peer.send(src, R.msg(R.NON, R.CONTENT, peer.next_mid(), f["token"], payload=b"ok"), d + sp.get("d2", 0.0))
@@ -277,7 +280,7 @@ def _case(draw):
             "con": draw(st.sampled_from([True, True, True, True, False])) if kind == "req" else True,
             "at": draw(st.sampled_from([0.5, 1.0])),
             "mr": draw(st.integers(0, 2)),
-            "reaction": draw(st.sampled_from(["piggy", "piggy", "ack_sep", "rst", "silent"])),
+            "reaction": draw(st.sampled_from(["piggy", "piggy", "piggy", "ack_sep", "ack_sep", "rst", "rst", "silent", "silent", "piggy_wrongtoken"])),
             "d": draw(st.sampled_from([0.0, 0.01, 0.3, 0.6, 1.2])),
             "d2": draw(st.sampled_from([0.0, 0.5])),
         }
